@@ -40,6 +40,7 @@ impl Function for DecodeLz4 {
             "`value` unable to decode value with lz4 block decoder.",
             "`value` unable to decode because the output is too large for the buffer.",
             "`value` unable to decode because the prepended size is not a valid integer.",
+            "`buf_size` is negative or larger than 4294967295.",
         ]
     }
 
@@ -104,14 +105,12 @@ impl FunctionExpression for DecodeLz4Fn {
             .map_resolve_with_default(ctx, || DEFAULT_PREPENDED_SIZE.clone())?
             .try_boolean()?;
 
-        let buffer_size: usize;
-        if let Ok(sz) = u32::try_from(buf_size) {
-            buffer_size = sz as usize;
-        } else {
-            // If the buffer size is too large, we default to a maximum size
-            buffer_size = usize::MAX;
-        }
-        decode_lz4(value, buffer_size, prepended_size)
+        // A negative or oversized buffer size cannot be allocated: reject it instead of
+        // asking for `usize::MAX` bytes, which panics with a capacity overflow.
+        let Ok(buffer_size) = u32::try_from(buf_size) else {
+            return Err(format!("`buf_size` must be between 0 and {}", u32::MAX).into());
+        };
+        decode_lz4(value, buffer_size as usize, prepended_size)
     }
 
     fn type_def(&self, _: &state::TypeState) -> TypeDef {
